@@ -19,7 +19,7 @@
 (***************************************************************************)
 EXTENDS Naturals, Integers, Sequences, FiniteSets, TLC, Json, IOUtils
 
-CONSTANTS SAdd(_,_), SMul(_,_), SNeg(_), SDiv(_,_), SFn(_,_), SPow(_,_), SDPow(_,_), SZero, SOne,
+CONSTANTS SAdd(_,_), SMul(_,_), SNeg(_), SDiv(_,_), SFn(_,_), SPow(_,_), SDPow(_,_), SZero, SOne, AdjCanon(_,_),
           TIn(_),        \* observed/recorded tensor (JSON record) -> tensor of the domain
           TMatch(_,_),   \* TMatch(obs, t): does the observation equal the specified tensor
           SIn(_),        \* scalar parameter (JSON record) -> scalar
@@ -154,6 +154,13 @@ JudgeBackward(e) ==
      ELSE IF badOrder THEN Bad("eval-order")
      ELSE JS("", S2, dig, <<"passes">> \o [i \in 1..Len(evs) |-> "evals"] \o [n \in 1..Cardinality(stored) |-> "adopted"])
 
+\* symbolic domain: after an update the new parameter values are the observed ones (so that terms do not
+\* grow with the history; each iteration is judged from the parameters observed before it)
+RECURSIVE RebindParams(_,_,_)
+RebindParams(S2, hs, obs) ==
+  IF Exact \/ hs = <<>> THEN S2
+  ELSE Strict([S2 EXCEPT !.nodes[S2.hd[Head(hs)].n].t = TIn(Head(obs))], LAMBDA S3 : RebindParams(S3, Tail(hs), Tail(obs)))
+
 JudgeUpdate(e) ==
   IF e.panic THEN Bad("unexpected-panic") ELSE
   LET S2 == Update(S, e.args, SIn(e.lr), e.i)
@@ -163,7 +170,7 @@ JudgeUpdate(e) ==
                                     THEN e.newp[CHOOSE i \in 1..Len(e.args) : e.args[i] = h].x ELSE dig[h]]
   IN IF \E i \in 1..Len(e.args) : Tainted(HandleT(S2, e.args[i])) THEN LeftExact
      ELSE IF dims THEN Bad("update-dims") ELSE IF wrong THEN Bad("update-values")
-     ELSE JS("", S2, dig2, <<"updates">>)
+     ELSE JS("", RebindParams(S2, e.args, e.newp), dig2, <<"updates">>)
 
 JudgeModel(e) ==
   IF e.op \in {"dense_new", "conv_new"} THEN
@@ -204,7 +211,11 @@ JudgeModel(e) ==
          ps == AllParams(S, S.model.layers)
          tainted == \E i \in 1..Len(ps) : Tainted(HandleT(S2, ps[i]))
          dig2 == [h \in DOMAIN dig |-> IF \E i \in 1..Len(ps) : ps[i] = h THEN ObsOf(e, h).x ELSE dig[h]]
-     IN IF tainted THEN LeftExact ELSE JS("", S2, dig2, <<"updates">>)
+         obsP == [i \in 1..Len(ps) |-> ObsOf(e, ps[i]).val]
+     IN IF tainted THEN LeftExact
+        ELSE IF \E i \in 1..Len(ps) : obsP[i].d # HandleT(S2, ps[i]).d THEN Bad("update-dims")
+        ELSE IF \E i \in 1..Len(ps) : ~TMatch(obsP[i], HandleT(S2, ps[i])) THEN Bad("update-values")
+        ELSE JS("", IF Exact THEN S2 ELSE RebindParams(S2, ps, obsP), dig2, <<"updates">>)
   ELSE Bad("TOOLERR-unknown-op")
 
 Judge(e) ==
@@ -214,6 +225,7 @@ Judge(e) ==
   ELSE IF e.op = "leaf" THEN
      LET ctor == Fld(e, "ctor", "dv")
          vals == IF ctor = "zeros" THEN [d |-> e.d, v |-> [k \in 1..Prod(e.d) |-> SZero]]
+                 ELSE IF Has(e, "hx") THEN TIn([d |-> IF ctor = "flat" THEN <<Len(e.hx)>> ELSE e.d, hx |-> e.hx])
                  ELSE IF ctor = "flat" THEN TIn([d |-> <<Len(e.m)>>, m |-> e.m, e |-> e.e])
                  ELSE TIn([d |-> e.d, m |-> e.m, e |-> e.e])
          ok == IF ctor = "zeros" THEN ValidDims(e.d) ELSE LeafOK(vals.d, vals.v)
@@ -270,6 +282,15 @@ Judge(e) ==
   ELSE IF e.op = "update" THEN JudgeUpdate(e)
   ELSE JudgeModel(e)
 
+\* symbolic domain: once an event has been judged, stored gradients are carried on as the OBSERVED
+\* values (each later pass is judged from what was actually there; terms and adjoint symbols of an
+\* earlier pass never leak into a later one)
+RebindGrads(S2, e) ==
+  IF Exact THEN S2 ELSE
+  [S2 EXCEPT !.grad = [n \in 1..Len(S2.grad) |->
+      LET hs == { h \in (DOMAIN S2.hd) \ Hidden : S2.hd[h].n = n /\ h \in ObsHandles(e) /\ Has(ObsOf(e, h), "gt") } IN
+      IF IsSome(S2.grad[n]) /\ hs # {} THEN Some(TIn(ObsOf(e, CHOOSE h \in hs : TRUE).gt)) ELSE S2.grad[n]]]
+
 RECURSIVE Bump(_,_)
 Bump(st, ks) == IF ks = <<>> THEN st ELSE Bump([st EXCEPT ![Head(ks)] = @ + 1], Tail(ks))
 
@@ -282,7 +303,7 @@ Step ==
         /\ S' = EmptyState /\ dig' = <<>> /\ skip' = FALSE /\ lastcmp' = FALSE
         /\ stats' = [stats EXCEPT !.cases = @ + 1]
      ELSE IF skip THEN /\ UNCHANGED <<S, dig, skip, lastcmp>> /\ stats' = [stats EXCEPT !.skipped = @ + 1]
-     ELSE \E j \in {Judge(e)} :
+     ELSE \E mark \in {Exact \/ PrintT(<<"EV", e.case, e.i>>)} : \E j \in {Judge(e)} :
           \E why \in {IF j.why # "" \/ j.unspec THEN j.why ELSE CheckLive(e, j.S, j.dig)} :
              IF j.unspec THEN
                 /\ PrintT(<<IF j.left THEN "LEFTEXACT" ELSE "UNSPEC", e.case, e.i, e.op>>)
@@ -291,7 +312,7 @@ Step ==
              ELSE IF why # "" THEN
                 /\ Report(e, why)
                 /\ skip' = TRUE /\ stats' = [stats EXCEPT !.bad = @ + 1] /\ UNCHANGED <<S, dig, lastcmp>>
-             ELSE /\ S' = j.S /\ dig' = j.dig /\ lastcmp' = j.cmp /\ skip' = FALSE
+             ELSE /\ S' = RebindGrads(j.S, e) /\ dig' = j.dig /\ lastcmp' = j.cmp /\ skip' = FALSE
                   /\ stats' = Bump(stats, j.st)
   /\ l' = l + 1
 
